@@ -1,21 +1,21 @@
 -- GENERATED: axiom audit of the property theorems of C27
 import SquidModel.Properties.C27
+#print axioms SquidModel.C27.source_flags
 #print axioms SquidModel.C27.limits_match_source
-#print axioms SquidModel.C27.int64_refines_spec_partial
-#print axioms SquidModel.C27.int64_refines_spec_unsigned
 #print axioms SquidModel.C27.int64_refines_spec
-#print axioms SquidModel.C27.int64_no_ub_partial
-#print axioms SquidModel.C27.int64_ub_iff
-#print axioms SquidModel.C27.int64_no_ub_unsigned
-#print axioms SquidModel.C27.int64_ub_counterexample
-#print axioms SquidModel.C27.int64_ub_counterexample_hex
+#print axioms SquidModel.C27.int64_no_ub
+#print axioms SquidModel.C27.int64_min_parsed
 #print axioms SquidModel.C27.int64_exact
 #print axioms SquidModel.C27.int64_fails_iff
 #print axioms SquidModel.C27.int64_consumes_exactly
 #print axioms SquidModel.C27.udec64_exact
 #print axioms SquidModel.C27.parseOffset_exact
-#print axioms SquidModel.C27.parseInt_exact_partial
-#print axioms SquidModel.C27.parseInt_no_digits
-#print axioms SquidModel.C27.parseInt_wraps_counterexample
-#print axioms SquidModel.C27.parseInt_wraps_counterexample_big
-#print axioms SquidModel.C27.parseInt_exact_checked
+#print axioms SquidModel.C27.parseInt_exact
+#print axioms SquidModel.C27.parseInt_rejects_wide_values
+#print axioms SquidModel.C27.prefix_int64_refines_outside_zone
+#print axioms SquidModel.C27.prefix_int64_ub_iff
+#print axioms SquidModel.C27.prefix_int64_ub_counterexample
+#print axioms SquidModel.C27.prefix_int64_ub_counterexample_hex
+#print axioms SquidModel.C27.prefix_parseInt_exact_partial
+#print axioms SquidModel.C27.prefix_parseInt_wraps_counterexample
+#print axioms SquidModel.C27.prefix_parseInt_wraps_counterexample_big
